@@ -1007,9 +1007,11 @@ pub fn op_big(args: &[Sexp]) -> String {
     // shapes 5..9: the same statements as 0..4 written on ONE line (line structure matters to the
     // error-report builder, which slices the current source line)
     let txt = if shape >= 5 { big_text(n, bad, shape - 5).lines().filter(|l| !l.trim_start().starts_with('#')).collect::<Vec<_>>().join(" ") } else { big_text(n, bad, shape) };
-    let t0 = std::time::Instant::now();
+    // CPU time of this thread, so that a loaded machine does not look like a slow reader; wall clock only where /proc is missing
+    let cpu_ms = crate::rng::thread_cpu_ms;
+    let (c0, t0) = (cpu_ms(), std::time::Instant::now());
     let r = lef21::verif_hooks::parse_str(&txt);
-    let ms = t0.elapsed().as_millis();
+    let ms = match (c0, cpu_ms()) { (Some(a), Some(b)) if b >= a => b - a, _ => t0.elapsed().as_millis() };
     // generous: 50 µs per statement line + 2 s (a quadratic reader needs minutes at n = 100000)
     let bound = 2000 + (n as u128) / 20;
     format!("ok {} {}", if r.is_ok() { "lib" } else { "err" }, if ms <= bound { "linear".to_string() } else { format!("slow-{}ms", ms) })
